@@ -54,11 +54,39 @@ Definition exec_bop (s : st) (b : bop) : st :=
 
 Inductive op := Do (b : bop) | Advance (a : Z).
 
-Section Clock.
-  Variable body : nat -> list bop.
+(** what a call function can do: a timer operation, or clock.advance(a) itself (re-entrant advance) *)
+Inductive cop := Op (b : bop) | CAdvance (a : Z).
 
-  (** the while loop of Clock.advance, with the _sortCalls() that precedes every test of the
-      loop condition moved to the head of the iteration *)
+Definition nonneg_cop (c : cop) : Prop := match c with Op b => nonneg_bop b | CAdvance a => 0 <= a end.
+
+(** the event logged last is "a call function raised": an exception is propagating *)
+Definition raised_now (s : st) : bool := match log s with ERaise _ :: _ => true | _ => false end.
+
+(** entering advance(a): self.rightNow += amount *)
+Definition enter_advance (a : Z) (s : st) : st := mkSt (calls s) (now s + a) (next s) (EIter :: log s) (oof s).
+
+(** a nested advance([adv] = the loop of Clock.advance): if a call function raised inside it the exception
+    propagates (no return), otherwise it returns and the clock is read *)
+Definition nested (adv : st -> st) (a : Z) (s : st) : st :=
+  let s' := adv (enter_advance a s) in if raised_now s' then s' else emit (EDone (now s')) s'.
+
+(** run a call function; the bool says whether it ended by an exception (its own, or one propagating out of a
+    nested advance) *)
+Fixpoint run_cbody (adv : st -> st) (bs : list cop) (s : st) : st * bool :=
+  match bs with
+  | [] => (s, false)
+  | Op BRaise :: _ => (s, true)
+  | Op b :: r => run_cbody adv r (exec_bop s b)
+  | CAdvance a :: r => let s' := nested adv a s in if raised_now s' then (s', true) else run_cbody adv r s'
+  end.
+
+Section Clock.
+  Variable body : nat -> list cop.
+
+  (** the while loop of Clock.advance, with the _sortCalls() that precedes every test of the loop condition
+      moved to the head of the iteration.  The clock is read ([now s]) at every test, so a call function that
+      advances the clock itself makes the enclosing loop go on up to the new time.  A nested advance runs the
+      same loop with less fuel. *)
   Fixpoint loop (fuel : nat) (s : st) : st :=
     match sort getTime (calls s) with
     | [] => mkSt [] (now s) (next s) (log s) (oof s)
@@ -68,7 +96,7 @@ Section Clock.
           | O => mkSt (c :: r) (now s) (next s) (log s) true
           | S f =>
               let s1 := mkSt r (now s) (next s) (ERun c (now s) r :: log s) (oof s) in
-              let res := run_body exec_bop (body (cid c)) s1 in
+              let res := run_cbody (loop f) (body (cid c)) s1 in
               if snd res then emit (ERaise (cid c)) (fst res)      (* the exception propagates out of advance() *)
               else loop f (emit (EEnd (cid c)) (fst res))
           end
@@ -79,7 +107,7 @@ Section Clock.
     match o with
     | Do b => exec_bop s b
     | Advance a =>
-        let s' := loop fuel (mkSt (calls s) (now s + a) (next s) (EIter :: log s) (oof s)) in
+        let s' := loop fuel (enter_advance a s) in
         emit (EDone (now s')) s'
     end.
 
